@@ -22,6 +22,7 @@ type Unit struct {
 	Assumed  []string
 	Watch    []watch
 	Notes    []string
+	ExternSites int
 }
 
 type watch struct {
@@ -63,6 +64,7 @@ func (e *Engine) translate(u *Unit) {
 		}
 		sort.Strings(u.Assumed)
 		u.Notes = x.notes
+		u.ExternSites = x.externSites
 	}()
 	fn := u.Fn
 	x.curPos = fn.Pos()
